@@ -26,7 +26,7 @@ TRUSTED = ["zoneinfo.ZoneInfo and datetime.date are the specification side of th
            "zone tables are fed to the model as windows around the value, the unit's first and last day and the walked week (bridged at the cuts); "
            "the theorems assume wf_zone of the table",
            "the hand-modelled bodies (set/at/second..day/week/next/previous) are pinned textually by tools/vlib/gens/g80_start_end.py"]
-ASSUMPTIONS = ["a call of start_of/end_of that runs longer than 2 s is classified as non-terminating (the model runs out of fuel exactly there)",
+ASSUMPTIONS = ["a call of start_of/end_of that runs longer than 1.5 s is classified as non-terminating (the model runs out of fuel exactly there)",
                "pendulum.week_starts_at/week_ends_at are process-global: the runner sets them per case and restores the defaults"]
 VM_SUBSET = 60
 
@@ -166,11 +166,13 @@ def _touches(u, ws, W, a, b):
     return False
 
 
-def _dt_cases_for_transition(name, tr, rnd, out, heavy):
+def _dt_cases_for_transition(name, tr, rnd, out, heavy, n_ws=7, hang_budget=None):
     tz = T.ref_zone(name)
     a, b = _region(tr)
     gap = tr[2] > tr[1]
     g = b - a
+    whole_day = gap and g >= 86400       # a calendar day (almost) entirely skipped: the week walk may never terminate there
+    wss = sorted(rnd.sample(range(7), n_ws))
     pts = [a * MEG - 1, a * MEG - 1800 * MEG - 1, b * MEG, b * MEG + 1, b * MEG + 2222 * MEG + 7, b * MEG + 5 * 3600 * MEG,
            a * MEG - 7 * 3600 * MEG, b * MEG + US_DAY + 3 * 3600 * MEG, a * MEG - US_DAY - 5 * 3600 * MEG]
     if heavy:
@@ -190,9 +192,17 @@ def _dt_cases_for_transition(name, tr, rnd, out, heavy):
             fnat = T.ref_render(tz, U)[1]
             if T.ref_render(tz, U)[0] != W:
                 continue
-            touching = [(u, ws) for u in range(9) for ws in (range(7) if u == 4 else (0,)) if _touches(u, ws, W, a, b)]
+            touching = [(u, ws) for u in range(9) for ws in (wss if u == 4 else (0,)) if _touches(u, ws, W, a, b)]
             picked = list(touching)
             picked.append((rnd.randrange(9), rnd.randrange(7)))
+            if whole_day:
+                wk = [p for p in picked if p[0] == 4]
+                picked = [p for p in picked if p[0] != 4]
+                while wk and hang_budget and hang_budget[0] > 0:
+                    picked.append(wk.pop(rnd.randrange(len(wk))))
+                    hang_budget[0] -= 1
+                    if rnd.randrange(2):
+                        break
             if not heavy and len(picked) > 6:
                 picked = rnd.sample(picked, 6)
             for (u, ws) in picked:
@@ -252,16 +262,17 @@ def cases(tier, seed):
         odd = [z for z in zones.ODD_ZONES if z in zones.names()]
         mids = [z for z in _midnight_zones() if z not in odd]
         rnd.shuffle(mids)
-        zs = odd + mids[:45]
+        zs = odd + mids[:40]
+    hang_budget = [60 if thorough else 10]
     for name in zs:
         mid, other = _select_transitions(name, rnd, 6 if thorough else 2)
-        if not thorough and len(mid) > 5:
-            big = sorted(mid, key=lambda t: -abs(t[2] - t[1]))[:2]
+        if not thorough and len(mid) > 4:
+            big = sorted(mid, key=lambda t: -abs(t[2] - t[1]))[:1]
             mid = big + rnd.sample([t for t in mid if t not in big], 3)
         for t in mid:
-            _dt_cases_for_transition(name, t, rnd, out, heavy=True)
+            _dt_cases_for_transition(name, t, rnd, out, heavy=True, n_ws=7 if thorough else 2, hang_budget=hang_budget)
         for t in other:
-            _dt_cases_for_transition(name, t, rnd, out, heavy=False)
+            _dt_cases_for_transition(name, t, rnd, out, heavy=False, n_ws=7 if thorough else 1, hang_budget=hang_budget)
     # ---- fixed offsets, UTC, naive: whole range incl. edges
     specs = [NAIVE, "UTC", 0, 3600, -3600, 19800, -12600, 86340, -86340, 20700]
     walls = _aligned_walls(rnd, 700 if thorough else 160)
@@ -345,7 +356,7 @@ def _grp(pendulum, r, tzname, tzobj):
 
 def _guard(fn):
     import signal
-    signal.setitimer(signal.ITIMER_REAL, 2.0)
+    signal.setitimer(signal.ITIMER_REAL, 1.5)
     try:
         return fn()
     finally:
@@ -523,7 +534,9 @@ def model_calls(c, backend):
     ux = T.unix_of_wall(W)
     lo, hi = bounds(u, ws, W)
     pts = [(ux - 9 * 86400, ux + 9 * 86400)]
-    for b in (lo, hi):
+    lo2 = bounds(u, ws, lo - 1)[0] if lo > 0 else lo
+    hi2 = bounds(u, ws, hi + 1)[1] if hi < MAX_WALL else hi
+    for b in (lo, hi, lo2, hi2):
         ub = T.unix_of_wall(min(max(b, 0), MAX_WALL))
         pts.append((ub - 9 * 86400 if u == 4 else ub - 86400, ub + 9 * 86400 if u == 4 else ub + 86400))
     z = _zone_enc_multi(spec, pts)
@@ -564,7 +577,7 @@ def _check_side(side, tz, spec, u, ws, W, f, Ux, g, g2, gref, lo, hi):
     if g[0] == 7:
         return f"{what}: result is not a DateTime in the same timezone (marker {g[1]})"
     if g == HANG:
-        return f"{what} does not terminate (no result after 2 s)"
+        return f"{what} does not terminate (no result after 1.5 s)"
     if g[0] == 1:
         if representable:
             return f"{what} raised (code {g[1]}) although the unit's {'first' if side == 'start' else 'last'} microsecond {T.fields_of(bound)} is representable"
@@ -579,8 +592,8 @@ def _check_side(side, tz, spec, u, ws, W, f, Ux, g, g2, gref, lo, hi):
         o_ref = T.off_s(T.native(Wr, fr, tz))
         if o_ref != off:
             return f"{what}: utcoffset {off} differs from the tz database's {o_ref} for {T.fields_of(Wr)} fold {fr}"
-        back = T.ref_render(tz, Wr - off * MEG)
-        if back[0] != Wr:
+        back = T.ref_render(tz, Wr - off * MEG) if 0 <= Wr - off * MEG <= MAX_WALL else None
+        if back is not None and back[0] != Wr:
             return f"{what} = {T.fields_of(Wr)} is not a valid local time"
     Ur = Wr - off * MEG
     if side == "start" and not Ur <= Ux:
@@ -653,12 +666,45 @@ def oracle(c, backend, r):
 
 
 # ----------------------------------------------------------------------------- known findings (tight predicates on the input)
-def _boundary_kinds(tz, u, ws, W):
-    """kinds of the wall seconds that start_of/end_of construct for this unit: (kind of first us, kind of last us, kinds of walked midnights)"""
-    lo, hi = bounds(u, ws, W)
-    klo = kind_of(tz, lo // MEG) if 0 <= lo <= MAX_WALL else "unique"
-    khi = kind_of(tz, hi // MEG) if 0 <= hi <= MAX_WALL else "unique"
-    return klo, khi
+def _day_kinds(tz, k0, k1, last_second_of=None):
+    """kinds of the local midnights of day indexes k0..k1 (and of the last second of day `last_second_of`)"""
+    ks = [kind_of(tz, k * 86400) for k in range(k0, k1 + 1)]
+    if last_second_of is not None:
+        ks.append(kind_of(tz, last_second_of * 86400 + 86399))
+    return ks
+
+
+def _whole_day_skipped(tz, k0, k1):
+    return any(kind_of(tz, k * 86400) == "skipped" and kind_of(tz, k * 86400 + 43200) == "skipped" and kind_of(tz, k * 86400 + 86399) == "skipped"
+               for k in range(k0, k1 + 1))
+
+
+def _classify_side(side, tz, u, ws, W, f, fnat, g, lo, hi):
+    """finding id for a failure of this side, or None when the input is outside every listed region"""
+    kx = W // US_DAY
+    if u == 4:
+        # the week walk: previous()/next() start with start_of('day') of the value's own day, then construct the local midnight of
+        # every walked day, then start_of('day') / end_of('day') of the target day
+        k0, k1 = (lo // US_DAY, kx) if side == "start" else (kx, hi // US_DAY)
+        if g == HANG:
+            return "week-walk-never-terminates" if _whole_day_skipped(tz, k0 - 1, k1 + 1) else None
+        kinds = _day_kinds(tz, k0, k1, None if side == "start" else k1)
+        return "week-walk-dst-midnight" if any(k != "unique" for k in kinds) else None
+    b = lo if side == "start" else hi
+    if not (0 <= b <= MAX_WALL):
+        return None
+    k = kind_of(tz, b // MEG)
+    if side == "start":
+        if k == "skipped" and (f == 0 or fnat == 0):
+            return "start-boundary-skipped-fold0"
+        if k == "repeated" and (f == 1 or fnat == 1):
+            return "start-boundary-repeated-fold1"
+    else:
+        if k == "skipped" and (f == 1 or fnat == 1):
+            return "end-boundary-skipped-fold1"
+        if k == "repeated" and (f == 0 or fnat == 0):
+            return "end-boundary-repeated-fold0"
+    return None
 
 
 def known(c, backend, r):
@@ -666,28 +712,20 @@ def known(c, backend, r):
     if fn != "dt":
         return None
     spec, W, f, fnat, prov, u, ws, we = a
-    if not _named(spec) or spec == "UTC" or not _consistent(ws, we) or r[0] != 0:
+    if not _named(spec) or spec == "UTC" or not _consistent(ws, we) or r[0] != 0 or len(r) != 25:
         return None
     tz = ref_tz(spec)
+    Ux = inst_of(tz, W, f)
     g = [r[1 + 4 * i: 5 + 4 * i] for i in range(6)]
     lo, hi = bounds(u, ws, W)
-    if u == 4:
-        # week: every local midnight / last second of a day that the walk constructs, from the week's first day to its last
-        days = range(lo // US_DAY, hi // US_DAY + 2)
-        kinds = set()
-        for k in days:
-            kinds.add(kind_of(tz, k * 86400))
-            kinds.add(kind_of(tz, k * 86400 - 1))
-        whole_day = any(kind_of(tz, k * 86400) == "skipped" and kind_of(tz, k * 86400 + 86399) == "skipped" for k in days)
-        if HANG in g and whole_day:
-            return "week-walk-never-terminates"
-        if kinds != {"unique"}:
-            return "boundary-resolved-by-instance-fold"
-        return None
-    klo, khi = _boundary_kinds(tz, u, ws, W)
-    if klo != "unique" or khi != "unique":
-        return "boundary-resolved-by-instance-fold"
-    return None
+    ids = []
+    for side, i in (("start", 0), ("end", 1)):
+        if _check_side(side, tz, spec, u, ws, W, f, Ux, g[i], g[i + 2], g[i + 4], lo, hi):
+            k = _classify_side(side, tz, u, ws, W, f, fnat, g[i], lo, hi)
+            if k is None:
+                return None          # a failing side outside every listed region: a violation
+            ids.append(k)
+    return ids[0] if ids else None
 
 
 LEVEL_TEXT = ("Machine-checked Coq theorems about an executable model of DateTime/Date start_of and end_of (month/year/decade/century bodies translated from "
